@@ -119,7 +119,7 @@ def copy_subtree(f, src, rnd=None, mutate=None):
     return r, mapping
 
 
-MUTATIONS = ["name", "namespace", "attr-value", "extra-attr", "text-char", "comment", "child-order", "prefix-only", "decl-only",
+MUTATIONS = ["pi-target", "pi-data", "comment-text", "name", "namespace", "attr-value", "extra-attr", "text-char", "comment", "child-order", "prefix-only", "decl-only",
              "attr-order", "case", "spaces", "drop-comment", "none"]
 
 
@@ -140,7 +140,20 @@ def mutate(f, root, rnd):
     comms = [i for i in ids if f.n[i - 1]["k"] == "comm"]
     nsn = [i for i in ids if f.n[i - 1]["k"] == "nsn"]
     try:
-        if m == "name" and elems:
+        pis = [i for i in ids if f.n[i - 1]["k"] == "pi"]
+        if m == "pi-target" and pis:
+            x = rnd.choice(pis)
+            f.n[x - 1]["ln"] = rnd.choice([q for q in LNS + ["alpha"] if q != f.n[x - 1]["ln"]])
+        elif m == "pi-data" and pis:
+            x = rnd.choice(pis)
+            if f.n[x - 1]["d"]:
+                f.n[x - 1]["t"] = f.n[x - 1]["t"] + [122]
+            else:
+                f.n[x - 1]["d"], f.n[x - 1]["t"] = True, [100]
+        elif m == "comment-text" and comms:
+            x = rnd.choice(comms)
+            f.n[x - 1]["t"] = f.n[x - 1]["t"] + [122]
+        elif m == "name" and elems:
             e = rnd.choice(elems)
             f.n[e - 1]["ln"] = rnd.choice([x for x in LNS if x != f.n[e - 1]["ln"]])
         elif m == "namespace" and elems:
